@@ -142,6 +142,9 @@ pub struct OneRun {
 /// One execution in *this* process (used inside the forked child only).
 pub fn run_one(prop: &Property, plan: &Plan, tape: dsim::Tape) -> OneRun {
     let out = exec::run(plan, tape);
+    // the simulated execution is over: what follows (building the view, verifying every response)
+    // is harness work, which the spin watchdog gives ten times its limit
+    mark_post_phase();
     let mut co = (prop.check)(plan, &out);
     if out.outcome == dsim::Outcome::StepCap {
         // no scenario comes near the cap on a healthy tree: a task is looping through seam calls
@@ -228,12 +231,31 @@ fn fork_run(f: impl FnOnce() -> Vec<u8>, timeout_s: u64) -> Forked {
         unsafe { libc::_exit(code) };
     }
     unsafe { libc::close(fds[1]) };
-    let t0 = Instant::now();
+    // the limit applies to the time since the execution last reached a scheduling point (the step
+    // counter the child mirrors into the shared slot), not to the execution as a whole: a long but
+    // healthy run on a busy machine is not a spin
+    let mut t0 = Instant::now();
     let mut buf = Vec::new();
     let mut chunk = vec![0u8; 1 << 16];
     let mut timed_out = false;
+    let slot = dsim::SPIN_SLOT.load(std::sync::atomic::Ordering::Relaxed);
+    let steps_now = || -> u64 {
+        if slot.is_null() {
+            return 0;
+        }
+        let mut b = [0u8; 8];
+        unsafe { std::ptr::copy_nonoverlapping(slot.add(120), b.as_mut_ptr(), 8) };
+        u64::from_le_bytes(b)
+    };
+    let mut last_steps = steps_now();
     loop {
-        let left = (timeout_s * 1000).saturating_sub(t0.elapsed().as_millis() as u64);
+        let s = steps_now();
+        if s != last_steps {
+            last_steps = s;
+            t0 = Instant::now();
+        }
+        let limit_ms = if last_steps == POST_PHASE { timeout_s * 10_000 } else { timeout_s * 1000 };
+        let left = limit_ms.saturating_sub(t0.elapsed().as_millis() as u64);
         if left == 0 {
             timed_out = true;
             break;
@@ -291,6 +313,15 @@ pub fn spin_violation(prop: &str, task: &str, steps: u64) -> Violation {
     }
 }
 
+const POST_PHASE: u64 = u64::MAX;
+
+fn mark_post_phase() {
+    let slot = dsim::SPIN_SLOT.load(std::sync::atomic::Ordering::Relaxed);
+    if !slot.is_null() {
+        unsafe { std::ptr::copy_nonoverlapping(POST_PHASE.to_le_bytes().as_ptr(), slot.add(120), 8) };
+    }
+}
+
 /// Run one execution in a forked child and return its summary.
 pub fn run_isolated(prop: &Property, plan: &Plan, tape: TapeSpec, want_tape: bool, trace_max: usize) -> RunSummary {
     let slot = spin_slot();
@@ -325,6 +356,9 @@ pub fn run_isolated(prop: &Property, plan: &Plan, tape: TapeSpec, want_tape: boo
                     (name, u64::from_le_bytes(b))
                 }
             };
+            if steps == POST_PHASE {
+                return RunSummary { crashed: Some(format!("the harness's own evaluation of a finished execution took more than {} s", SPIN_LIMIT_S * 10)), scenario: plan.scenario.clone(), ..Default::default() };
+            }
             let mut s = RunSummary { spun: true, spin_task: task.clone(), spin_steps: steps, scenario: plan.scenario.clone(), outcome: "Spinning".into(), ..Default::default() };
             s.co.violations.push(spin_violation(prop.id, &task, steps));
             s
